@@ -2,6 +2,7 @@
 import ast
 
 from .. import rx, strlang, cfg
+from .. import paths, normalize
 from ..core import AnalysisError, norm, walk_no_nested
 from . import common
 
@@ -95,67 +96,92 @@ def guard_lang(test, mvar, alpha, markers, groups_seen):
     return go(test)
 
 
+def find_match_expr(src, f, fnode):
+    """the `<regex>.match(<param>)` call of the function -> (regex entry, mode, call node)"""
+    for c in ast.walk(fnode):
+        if isinstance(c, ast.Call) and isinstance(c.func, ast.Attribute) and c.func.attr in ('match', 'fullmatch', 'search') and len(c.args) == 1:
+            recv = c.func.value
+            name = recv.attr if isinstance(recv, ast.Attribute) else recv.id if isinstance(recv, ast.Name) else None
+            if name is None:
+                continue
+            for k in (f.module.mro(f.cls) if f.cls else []) + [None]:
+                try:
+                    return src.regex(f.module.name, name, cls=k), c.func.attr, c
+                except AnalysisError:
+                    continue
+    raise AnalysisError('no `<regex>.match(...)` in %s' % f.site)
+
+
 def accepted_language(src, f, rep):
-    """language accepted by a check-then-store function of the form
-         m = R.match(x); if not m: raise; if <guard on m.group(..)>: raise; self.a = ...
-    returns dict with the automata needed by the rules"""
-    r, mode, mvar, subject, mstmt = find_match_site(src, f)
+    """language accepted by a check-then-store function: the function's paths are enumerated with locals
+    substituted away (sa.paths); every literal of a path is a statement about the match object -- matched or
+    not, participation of a group, a content predicate on a group -- and becomes a marked language; the
+    accepted strings are those of the non-raising paths"""
+    fnode, _inl = normalize.inline_helpers(f)
+    r, mode, mcall = find_match_expr(src, f, fnode)
     pattern, flags = r['pattern'], r['flags']
     rep.saw_regex('%s:%s' % (r['module'], r['binding']))
-    body = f.node.body
-    i = body.index(mstmt) + 1
-    guards = []
-    nomatch_checked = False
-    while i < len(body):
-        st = body[i]
-        if isinstance(st, ast.Expr) and isinstance(st.value, ast.Constant):
-            i += 1
-            continue
-        if isinstance(st, ast.If) and not st.orelse and len(st.body) == 1 and isinstance(st.body[0], ast.Raise):
-            t = norm(st.test)
-            if t in ('not %s' % mvar, '%s is None' % mvar):
-                nomatch_checked = True
-            else:
-                guards.append(st)
-            i += 1
-            continue
-        break
-    if not nomatch_checked:
-        raise AnalysisError('%s: no `if not %s: raise` after the match' % (f.site, mvar))
-    rest = body[i:]
-    # guards placed after the stores still reject (C14.R3 reports the ordering); count them for the language
-    alias = {}
-    for st in rest:
-        if isinstance(st, ast.Assign) and len(st.targets) == 1 and isinstance(st.value, ast.Call) \
-                and isinstance(st.value.func, ast.Attribute) and st.value.func.attr == 'group' and norm(st.value.func.value) == mvar:
-            alias[norm(st.targets[0])] = st.value
-        if isinstance(st, ast.If) and not st.orelse and len(st.body) == 1 and isinstance(st.body[0], ast.Raise):
-            class Sub(ast.NodeTransformer):
-                def visit_Attribute(self, node):
-                    return alias.get(norm(node), node)
-
-                def visit_Name(self, node):
-                    return alias.get(norm(node), node)
-            import copy
-            g2 = copy.deepcopy(st)
-            g2.test = Sub().visit(g2.test)
-            guards.append(g2)
-    # groups read anywhere in the function
+    M = norm(mcall)
+    subject = norm(mcall.args[0])
+    ps = paths.function_paths(fnode, paths.Folder(paths.module_consts(f.module, f.cls or '')))
+    rep.analysed['paths'] += len(ps)
     groups = []
-    for n in ast.walk(f.node):
-        if isinstance(n, ast.Call) and isinstance(n.func, ast.Attribute) and n.func.attr == 'group' \
-                and norm(n.func.value) == mvar and len(n.args) == 1 and isinstance(n.args[0], ast.Constant):
-            if n.args[0].value not in groups:
-                groups.append(n.args[0].value)
+    for p_ in ps:
+        nodes = [t for t, _ in p_.conds] + [e[2] for e in p_.events if e[0] == 'store']
+        for t in nodes:
+            for n in ast.walk(t):
+                if isinstance(n, ast.Call) and isinstance(n.func, ast.Attribute) and n.func.attr == 'group' \
+                        and norm(n.func.value) == M and len(n.args) == 1 and isinstance(n.args[0], ast.Constant):
+                    if n.args[0].value not in groups:
+                        groups.append(n.args[0].value)
+    mvar = M
     alpha = rx.alphabet('str')
     markers = [(k, g) for g in groups for k in ('open', 'close')]
     Rm = rx.regex_lang(pattern, flags, mode, groups, markers, alpha)
     L = rx.regex_lang(pattern, flags, mode, (), [], alpha)
     seen = set()
     Gm = None
-    for g in guards:
-        gl = guard_lang(g.test, mvar, alpha, markers, seen)
-        Gm = gl if Gm is None else Gm.union(gl)
+    guards = []
+    nomatch_accepted = False
+    anym = rx.sigma_star(alpha, markers)
+
+    def literal_lang(t, pol):
+        """marked language of a literal, or 'nomatch' / 'match' for the statements about the match object itself"""
+        txt = norm(t)
+        if txt == M or txt == '%s is not None' % M:
+            return 'match' if pol else 'nomatch'
+        if txt == '%s is None' % M or txt == 'not %s' % M:
+            return 'nomatch' if pol else 'match'
+        gl = guard_lang(t, M, alpha, markers, seen)
+        return gl if pol else gl.complement()
+    accept_marked = None
+    for p_ in ps:
+        lang = anym
+        kind = 'match'
+        for t, pol in p_.conds:
+            ll = literal_lang(t, pol)
+            if ll == 'nomatch':
+                kind = 'nomatch'
+            elif ll != 'match':
+                lang = lang.intersect(ll)
+        raises = p_.outcome[0] == 'raise'
+        if kind == 'nomatch':
+            if not raises:
+                nomatch_accepted = True
+            continue
+        if raises:
+            guards.append(p_)
+            Gm = lang if Gm is None else Gm.union(lang)
+        else:
+            accept_marked = lang if accept_marked is None else accept_marked.union(lang)
+    if nomatch_accepted:
+        raise AnalysisError('%s: a path stores the components although the regex did not match' % f.site)
+    if not any(p_.outcome[0] == 'raise' and any(literal_lang(t, pol) == 'nomatch' for t, pol in p_.conds) for p_ in ps):
+        raise AnalysisError('%s: no path raises when the regex does not match' % f.site)
+    okpaths = [p_ for p_ in ps if p_.outcome[0] != 'raise']
+    if not okpaths:
+        raise AnalysisError('%s: no accepting path' % f.site)
+    rest = okpaths
     if Gm is None:
         accepted = L
         chosen_ok = Rm
@@ -224,15 +250,24 @@ def r2_lossless(rep, src, A):
     attr_group = {}
     stored_input = None
     param = fset.params()[1] if len(fset.params()) > 1 else None
-    for st in A['rest']:
-        if isinstance(st, ast.Assign) and len(st.targets) == 1 and isinstance(st.targets[0], ast.Attribute) \
-                and norm(st.targets[0].value) == 'self':
-            v = st.value
+    M = A['mvar']
+    per_path = []
+    for p_ in A['rest']:
+        ag, si = {}, None
+        for ev in p_.events:
+            if ev[0] != 'store' or not ev[1].startswith('self.'):
+                continue
+            v = ev[2]
+            attr = ev[1][len('self.'):]
             if isinstance(v, ast.Call) and isinstance(v.func, ast.Attribute) and v.func.attr == 'group' \
-                    and norm(v.func.value) == mvar and len(v.args) == 1 and isinstance(v.args[0], ast.Constant):
-                attr_group[st.targets[0].attr] = v.args[0].value
+                    and norm(v.func.value) == M and len(v.args) == 1 and isinstance(v.args[0], ast.Constant):
+                ag[attr] = v.args[0].value
             elif isinstance(v, ast.Name) and v.id == param:
-                stored_input = st.targets[0].attr
+                si = attr
+        per_path.append((ag, si))
+    if any(x != per_path[0] for x in per_path):
+        rep.fail('C14.R2', fset.site, 'component stores', 'the accepting paths store different things: %r' % (per_path,), where=fset.where)
+    attr_group, stored_input = per_path[0]
     if len(attr_group) < 3:
         raise AnalysisError('%s: fewer than 3 component stores from match groups' % fset.site)
     # the parameter must not be rebound before it is matched / stored
@@ -303,21 +338,20 @@ def r2_lossless(rep, src, A):
 
 def r3_check_then_commit(rep, src, A):
     f = src.func(SITE + '._set_full_version')
-    g = cfg.CFG(f.node)
-    stores = [n for n in g.stmts() if n.kind == 'stmt' and isinstance(n.ast, (ast.Assign, ast.AugAssign))
-              and any(isinstance(t, ast.Attribute) and norm(t.value) == 'self'
-                      for t in (n.ast.targets if isinstance(n.ast, ast.Assign) else [n.ast.target]))]
-    raises = [n for n in g.nodes if n.kind == 'raise']
-    if not stores or not raises:
+    fnode, _ = normalize.inline_helpers(f)
+    ps = paths.function_paths(fnode, paths.Folder(paths.module_consts(f.module, f.cls or '')))
+    raising = [p_ for p_ in ps if p_.outcome[0] == 'raise']
+    storing = [p_ for p_ in ps if any(e[0] == 'store' and e[1].startswith('self.') for e in p_.events)]
+    if not storing or not raising:
         raise AnalysisError('%s: expected stores to self and raise statements' % f.site)
-    bad = [(s, r) for s in stores for r in raises if g.exists_path(s.id, r.id)]
+    bad = [p_ for p_ in raising if any(e[0] == 'store' and e[1].startswith('self.') for e in p_.events)]
     if bad:
-        s, r = bad[0]
+        e = [e for e in bad[0].events if e[0] == 'store' and e[1].startswith('self.')][0]
         rep.fail('C14.R3', f.site, 'no raise after first store',
-                 'a raise (line %d) is reachable after the store %s: a rejected string would leave a half-updated object'
-                 % (r.lineno, norm(s.ast)), where='%s:%d' % (f.module.relpath, s.lineno))
+                 'a raise (line %d) is reached after the store to %s on the path [%s]: a rejected string would leave a half-updated object'
+                 % (bad[0].outcome[2].lineno, e[1], bad[0].describe()[:200]), where='%s:%d' % (f.module.relpath, e[3].lineno))
     else:
-        rep.ok('C14.R3', f.site, 'no raise after first store', '%d stores, %d raises, no store→raise path' % (len(stores), len(raises)))
+        rep.ok('C14.R3', f.site, 'no raise after first store', '%d storing paths, %d raising paths, no raising path stores' % (len(storing), len(raising)))
     # rollback in __setattr__
     f2 = src.func(SITE + '.__setattr__')
     rep.saw_func(f2)
